@@ -5,6 +5,7 @@ package hmods
 
 import (
 	"context"
+	"strings"
 	"crypto/tls"
 	"encoding/json"
 	"errors"
@@ -48,6 +49,7 @@ type ConnRec struct {
 	streams map[string][]byte
 	order   []string // consumer names in order of first read
 	done    map[string]chan struct{}
+	born    time.Time // set for records created before the harness tracked the id
 }
 
 var (
@@ -56,13 +58,48 @@ var (
 	gseq  atomic.Int64
 )
 
-// Track starts recording for the connection id and returns its record.
+// Track starts recording for the connection id and returns its record. With real sockets a handler can run
+// (even finish) before the harness learns the connection's id; events of untracked ids are therefore kept for a
+// short while as orphans and adopted by a Track that follows within 3 seconds.
 func Track(id string) *ConnRec {
-	r := &ConnRec{ID: id, streams: map[string][]byte{}, done: map[string]chan struct{}{}}
 	recMu.Lock()
+	defer recMu.Unlock()
+	if o := orphans[id]; o != nil {
+		delete(orphans, id)
+		if time.Since(o.born) < 3*time.Second {
+			recs[id] = o
+			return o
+		}
+	}
+	r := &ConnRec{ID: id, streams: map[string][]byte{}, done: map[string]chan struct{}{}}
 	recs[id] = r
-	recMu.Unlock()
 	return r
+}
+
+var orphans = map[string]*ConnRec{}
+
+func orphan(id string) *ConnRec {
+	recMu.Lock()
+	defer recMu.Unlock()
+	if r := recs[id]; r != nil {
+		return r
+	}
+	if o := orphans[id]; o != nil && time.Since(o.born) < 3*time.Second {
+		return o
+	}
+	if len(orphans) > 4096 {
+		for k, o := range orphans {
+			if time.Since(o.born) > 3*time.Second {
+				delete(orphans, k)
+			}
+		}
+		if len(orphans) > 4096 {
+			return nil
+		}
+	}
+	o := &ConnRec{ID: id, streams: map[string][]byte{}, done: map[string]chan struct{}{}, born: time.Now()}
+	orphans[id] = o
+	return o
 }
 
 // Untrack forgets the record for id.
@@ -244,10 +281,28 @@ func ConnID(cx *layer4.Connection) string {
 	if base == nil || base.RemoteAddr() == nil {
 		return "?"
 	}
+	if _, ok := base.(*net.TCPConn); ok && base.LocalAddr() != nil {
+		// real TCP: a client port alone is not unique (the same local port may be in use towards another listener)
+		return RealConnID(base.RemoteAddr().String(), base.LocalAddr().String())
+	}
 	return base.RemoteAddr().Network() + ":" + base.RemoteAddr().String()
 }
 
-func recOf(cx *layer4.Connection) *ConnRec { return lookup(ConnID(cx)) }
+// RealConnID is the recorder id of a real TCP connection, from the client's and the server's address.
+func RealConnID(clientAddr, serverAddr string) string {
+	return "tcp:" + clientAddr + ">" + serverAddr
+}
+
+func recOf(cx *layer4.Connection) *ConnRec {
+	id := ConnID(cx)
+	if r := lookup(id); r != nil {
+		return r
+	}
+	if strings.HasPrefix(id, "tcp:") {
+		return orphan(id) // real sockets only: scripted connections are always tracked before they are offered
+	}
+	return nil
+}
 
 // ---------------------------------------------------------------------------
 // Handlers
@@ -413,6 +468,9 @@ func (s *Span) Handle(cx *layer4.Connection, next layer4.Handler) error {
 	if rec == nil {
 		// real sockets: the harness may have started tracking this connection only after the handler began
 		rec = recOf(cx)
+		if rec == nil && os.Getenv("VERIF_DEBUG_SPAN") != "" {
+			fmt.Fprintf(os.Stderr, "SPAN-EXIT-UNTRACKED id=%q name=%s t=%v err=%v\n", ConnID(cx), s.Name, vnet.Now(), err)
+		}
 	}
 	rec.Add(Event{Kind: "exit", Who: s.Name, S: errString(err)})
 	rec.signalDone(s.Name)
